@@ -36,7 +36,7 @@ from octave_mcp.core.emitter import emit
 from octave_mcp.core.gbnf_compiler import GBNFCompiler
 from octave_mcp.core.hydrator import resolve_hermetic_standard
 from octave_mcp.core.lexer import LexerError, tokenize
-from octave_mcp.core.parser import ParserError, _strip_yaml_frontmatter, parse, parse_with_warnings
+from octave_mcp.core.parser import Parser, ParserError, _strip_yaml_frontmatter, parse, parse_with_warnings
 from octave_mcp.core.repair import repair
 from octave_mcp.core.repair_log import LiteralZoneRepairLog
 from octave_mcp.core.schema_extractor import SchemaDefinition
@@ -1347,7 +1347,13 @@ class WriteTool(BaseTool):
                     )
 
                 try:
-                    doc = parse(parse_input)
+                    # Same strict parse as parse() (strict_structure=True), but the parser's own
+                    # I4 receipts (e.g. multi-word coalescing) are kept instead of discarded.
+                    strict_input, strict_frontmatter = _strip_yaml_frontmatter(parse_input)
+                    strict_tokens, _ = tokenize(strict_input)
+                    strict_parser = Parser(strict_tokens, strict_structure=True)
+                    doc = strict_parser.parse_document()
+                    doc.raw_frontmatter = strict_frontmatter
                 except Exception as e:
                     strict_corrections = self._track_corrections(parse_input, parse_input, tokenize_repairs)
                     return self._error_envelope(
@@ -1357,6 +1363,7 @@ class WriteTool(BaseTool):
                     )
 
                 corrections.extend(self._track_corrections(parse_input, parse_input, tokenize_repairs))
+                corrections.extend(self._map_parse_warnings_to_corrections(strict_parser.warnings))
 
             # Apply META mutations (if any)
             self._apply_mutations(doc, mutations)
